@@ -15,6 +15,8 @@ use core::marker::PhantomData;
 #[derive(Component)] struct B(u32);
 #[derive(Component)] #[component(immutable)] struct I(u32);
 #[derive(Component)] struct R(std::rc::Rc<()>);
+#[derive(Component)] struct Gd(std::sync::MutexGuard<'static, i32>);   // Sync, not Send
+#[derive(Component)] struct Cl(std::cell::Cell<i32>);                  // Send, not Sync
 #[derive(GlobalEvent)] struct E(u32);
 #[derive(GlobalEvent)] #[event(immutable)] struct EI(u32);
 #[derive(TargetedEvent)] struct T(u32);
@@ -143,6 +145,18 @@ def twin_table(tier):
     add("iter-send-rc", "world.add_handler(|_: Receiver<E>, f: Fetcher<&R>| { let it = f.iter(); assert_send(&it); });", False, ("flag", "iter_send_iff_item"))
     add("iter-sync-rc", "world.add_handler(|_: Receiver<E>, f: Fetcher<&R>| { let it = f.iter(); assert_sync(&it); });", False, ("flag", "iter_sync_iff_item"))
     add("iter-send-plain", "world.add_handler(|_: Receiver<E>, f: Fetcher<&A>| { let it = f.iter(); assert_send(&it); assert_sync(&it); });", True)
+    # data that is thread-safe in one direction only: `&mut X: Send` needs `X: Send`, `&X: Send` and `&X: Sync` need `X: Sync`
+    add("iter-send-guard-mut", "world.add_handler(|_: Receiver<E>, mut f: Fetcher<&mut Gd>| { let it = f.iter_mut(); assert_send(&it); });", False, ("flag", "iter_send_iff_item"))
+    add("iter-send-guard-ref", "world.add_handler(|_: Receiver<E>, f: Fetcher<&Gd>| { let it = f.iter(); assert_send(&it); assert_sync(&it); });", True)
+    add("iter-move-guard-mut", "world.add_handler(|_: Receiver<E>, mut f: Fetcher<&mut Gd>| { let it = f.iter_mut(); std::thread::scope(|s| { s.spawn(move || { for _ in it {} }); }); });", False, ("flag", "iter_send_iff_item"))
+    add("iter-move-plain-mut", "world.add_handler(|_: Receiver<E>, mut f: Fetcher<&mut A>| { let it = f.iter_mut(); std::thread::scope(|s| { s.spawn(move || { for _ in it {} }); }); });", True)
+    add("iter-send-cell-ref", "world.add_handler(|_: Receiver<E>, f: Fetcher<&Cl>| { let it = f.iter(); assert_send(&it); });", False, ("flag", "iter_send_iff_item"))
+    add("iter-sync-cell-ref", "world.add_handler(|_: Receiver<E>, f: Fetcher<&Cl>| { let it = f.iter(); assert_sync(&it); });", False, ("flag", "iter_sync_iff_item"))
+    add("iter-send-cell-mut", "world.add_handler(|_: Receiver<E>, mut f: Fetcher<&mut Cl>| { let it = f.iter_mut(); assert_send(&it); });", True)
+    add("fetcher-send-guard-mut", "world.add_handler(|_: Receiver<E>, f: Fetcher<&mut Gd>| { assert_send(&f); });", False, ("flag", "fetcher_send_iff_item"))
+    add("fetcher-send-guard-ref", "world.add_handler(|_: Receiver<E>, f: Fetcher<&Gd>| { assert_send(&f); assert_sync(&f); });", True)
+    add("fetcher-sync-cell-ref", "world.add_handler(|_: Receiver<E>, f: Fetcher<&Cl>| { assert_sync(&f); });", False, ("flag", "fetcher_sync_iff_item"))
+    add("fetcher-send-cell-mut", "world.add_handler(|_: Receiver<E>, f: Fetcher<&mut Cl>| { assert_send(&f); });", True)
     add("eventmut-send-rc", "#[derive(GlobalEvent)] struct ER(std::rc::Rc<()>); world.add_handler(|r: ReceiverMut<ER>| { assert_send(&r.event); });", False, ("flag", "eventmut_send_iff_event"))
     add("eventmut-send-plain", "world.add_handler(|r: ReceiverMut<E>| { assert_send(&r.event); });", True)
     return T
